@@ -70,7 +70,7 @@ CLAIMED.update({
 CLAIMED.update({
  "C19": ("exploration",
    "Seeded small internets (root + up to 3 levels, 1-2 NS per zone on 2-6 scripted authoritative servers, NS host names in / above / beside the zone, glue present / absent / dead, lame and faulty servers, CNAME chains and loops across zones) resolved by the real Recursor down to the simulated sockets; hostile servers append records whose owner lies outside every zone they were ever delegated (each injection has its own marker address and its own trigger class); oracles over the recorded history: no injected record is returned, contacted as a name server or resurfaces after all servers turned honest; denied server / answer addresses never contacted / returned; every resolution ends within the step budget and a query cap; plain worlds resolve to the truth.",
-   "Authoritative servers are a scripted stub (RFC 1034 4.3.2 subset); a hostile server lies only outside its bailiwick; non-validating recursor only; stub-resolver alias chasing is not driven separately.",
+   "Authoritative servers are a scripted stub (RFC 1034 4.3.2 subset); a hostile server lies only outside its bailiwick; non-validating recursor only. Second part `alias`: the real stub Resolver (CachingClient alias chasing) against an upstream serving alias chains of 0-13 hops, loops, 1-3 hops per response, concurrent identical lookups and cache sizes: bounded upstream queries, termination, right answer for short chains.",
    "deterministic simulation: generated internet on the simulated network, seeded hostile-record injection / lame / silent / dead-glue faults, marker-based history oracle, discrete-event clock for timeouts", "4 (C19)"),
  "C11": ("exploration",
    "Seeded catalogs (nested, sibling, look-alike and root zones with zone markers, optional Skip handler in front) and allow/deny sets behind the real Server front gate (guarded hook = the call the socket loops make); 3-14 concurrent requests per run built by the rig's own encoder: valid queries over every opcode / QR / EDNS version / class / type, truncations, single-byte mutations, wrong question counts, random bytes, over UDP and TCP; oracle: 0 responses for short or QR=1 messages, else exactly 1 with the id and QR, NOTIMP / REFUSED / BADVERS / question echo / marker of the longest enclosing zone for constructed-valid requests (reference access-control and longest-suffix models), and a final probe that must still be served.",
